@@ -426,6 +426,7 @@ def write_evidence(tier, verif_seed, total, determinism, tree, wall, violations,
             'workers': workers,
             'runs_by_sub_campaign': dict(total['by_sub']),
             'runs_by_world': dict(total['by_world']),
+            'worker_seconds_by_sub_campaign': {k: round(v, 1) for k, v in total['wall_by_sub'].items()},
             'heavy_runs_with_real_solves': total['heavy'],
             'fine_mode_runs': total['fine'],
             'statements_generated': total['stmts_total'],
